@@ -1817,7 +1817,7 @@ func (p *wat2X64Worker) buildFunc_ins(
 		fmt.Fprintf(w, "    # memory.grow\n")
 		fmt.Fprintf(w, "    mov r10, qword ptr [rip+%s]\n", kMemoryPagesName)
 		fmt.Fprintf(w, "    mov r11, qword ptr [rip+%s]\n", kMemoryMaxPagesName)
-		fmt.Fprintf(w, "    mov rax, qword ptr [rbp%+d]\n", sp0)
+		fmt.Fprintf(w, "    mov eax, dword ptr [rbp%+d]\n", sp0)
 		fmt.Fprintf(w, "    add rax, r10\n")
 		fmt.Fprintf(w, "    cmp rax, r11\n")
 		fmt.Fprintf(w, "    ja  %s\n", labelElse)
